@@ -325,6 +325,70 @@ def replay_concrete(mi, expr, target, si, cnames, cparts):
     return (not ok), detail
 
 
+# ---------------------------------------------------------------- provider level
+# one RREL scope-provider object (create_rrel_scope_provider) serving reference
+# attributes whose match rules split names differently: the delimiter is
+# deduced per reference.  Selectors choose the sequence of references.
+PGRAMMAR = """
+Model: packages*=Package refs*=Use;
+Package: 'package' name=ID '{' classes*=Class packages*=Package '}';
+Class: 'class' name=ID;
+Use: 'dot' d=[Class:FQN] | 'col' c=[Class:FQNC] | 'plain' p=[Class];
+FQN[split='.']: ID('.'ID)*;
+FQNC[split='::']: ID('::'ID)*;
+"""
+PMODEL = "package p1 { class A package p2 { class B } } package q { class A }"
+PTARGETS = [('p1', 'A'), ('p1', 'p2', 'B'), ('q', 'A')]
+
+
+def provider_explore(item):
+    expr, nrefs = item
+    from textx import metamodel_from_str
+    from textx.scoping.rrel import create_rrel_scope_provider
+    from textx.exceptions import TextXError
+    import z3
+    ctx = Ctx(10000, max_paths=20000, free_selectors=True)
+
+    def path(c):
+        uses = []
+        for i in range(nrefs):
+            kind = 'dot' if c.branch(z3.Bool('dot_%d' % i)) else 'col'
+            ti = 0 if c.branch(z3.Bool('t0_%d' % i)) else (1 if c.branch(z3.Bool('t1_%d' % i)) else 2)
+            uses.append((kind, PTARGETS[ti]))
+        text = PMODEL + ''.join(' %s %s' % (k, ('.' if k == 'dot' else '::').join(t)) for k, t in uses)
+        mm = metamodel_from_str(PGRAMMAR)
+        mm.register_scope_providers({'*.*': create_rrel_scope_provider(expr)})
+        try:
+            m = mm.model_from_str(text)
+        except TextXError as e:
+            return ('bad', text, 'load fails: %s' % str(e)[:80])
+        for u, (k, t) in zip(m.refs, uses):
+            o = u.d if k == 'dot' else u.c
+            got = []
+            x = o
+            while hasattr(x, 'name'):
+                got.insert(0, x.name)
+                x = getattr(x, 'parent', None)
+            if tuple(got) != t:
+                return ('bad', text, 'reference %s resolves to %s' % ('.'.join(t), '.'.join(got)))
+        return ('ok', text, None)
+    outs = ctx.explore(path)
+    return {'expr': expr, 'paths': ctx.paths, 'bad': [o for o in outs if o[0] == 'bad'][:2],
+            'ok': sum(1 for o in outs if o[0] == 'ok')}
+
+
+def provider_replay(expr, text):
+    from textx import metamodel_from_str
+    from textx.scoping.rrel import create_rrel_scope_provider
+    mm = metamodel_from_str(PGRAMMAR)
+    mm.register_scope_providers({'*.*': create_rrel_scope_provider(expr)})
+    try:
+        m = mm.model_from_str(text)
+    except Exception as e:  # noqa
+        return True, 'load fails: %s' % str(e)[:100]
+    return False, 'loads'
+
+
 def main():
     import textx.scoping.rrel as R
     chk = Check(PROP, 'model_checking')
@@ -379,6 +443,20 @@ def main():
                     'paths': r['paths'], 'discharged': r['ok'], 'paths_with_a_result': r['nonvacuous']})
     if nonvac == 0:
         chk.harness_error('vacuous: no path resolved anything')
+    # provider level (path-exhaustive over reference sequences, no solver verdict)
+    pitems = [(e, 2 if quick else 3) for e in ('packages*.classes', '+p:packages*.classes')]
+    for it, (st, r, secs) in zip(pitems, pmap(provider_explore, pitems)):
+        if st != 'ok':
+            chk.harness_error(r)
+            continue
+        paths += r['paths']
+        if not r['ok'] and not r['bad']:
+            chk.harness_error('vacuous provider scenario')
+        for _, text, what in r['bad'][:1]:
+            chk.violation('provider %r on %r: %s' % (r['expr'], text, what), {'provider_expr': r['expr'], 'text': text})
+        chk.sample({'provider_scenario': r['expr'], 'reference_sequences': r['paths'], 'resolved_as_expected': r['ok']})
+    chk.cov['bounds']['provider_scenario'] = ('one provider object for references with split ".", "::"; every sequence of '
+                                              '%d references over 3 targets' % pitems[0][1])
     chk.cov['paths_explored'] = paths
     chk.cov['distinct_nontrivial'] = nonvac
     chk.cov['obligations'] = paths
@@ -390,4 +468,15 @@ def main():
 
 
 def replay(data):
+    if 'provider_expr' in data:
+        from textx import metamodel_from_str
+        from textx.scoping.rrel import create_rrel_scope_provider
+        mm = metamodel_from_str(PGRAMMAR)
+        mm.register_scope_providers({'*.*': create_rrel_scope_provider(data['provider_expr'])})
+        try:
+            mm.model_from_str(data['text'])
+        except Exception as e:  # noqa
+            return True, 'load fails: %s' % str(e)[:100]
+        r = provider_explore((data['provider_expr'], 2))
+        return bool(r['bad']), r['bad'][:1]
     return replay_concrete(data['model'], data['expr'], data['target'], data['start'], data['names'], data['parts'])
